@@ -87,6 +87,10 @@ type Sub struct {
 	Wild     bool // model lost track (e.g. expiry inside an uncertainty window)
 	// bookkeeping for evidence
 	IsDLTarget bool
+	// Reshuffled: a seek or a retention update was tried on this incarnation
+	// (the only client operations that settle, revive or expire same-key
+	// messages out of publish order)
+	Reshuffled bool
 	// DLEver: every topic this subscription has ever dead-lettered into (its
 	// policy can be changed; copies forwarded under an earlier policy remain)
 	DLEver map[*Topic]bool
